@@ -81,7 +81,7 @@ def run(ctx):
                 l, r_ = [B.peel(x) for x in sub.a[1]]
                 ok = r_.op == "param" and r_.a[1] == "u" and l.op == "call" and B.cname(l) == "Mul::mul" and B.peel(l.a[1][0]).op == "call" and B.cname(B.peel(l.a[1][0])) == "Group::generator"
                 if ok:
-                    rr = l.a[1][1]
+                    rr = strip_sites(inline(P, l.a[1][1], 2, only=K.local_inliner(P)))
                     # r' depends on the recovered alpha (compute_v) and on the recovered message (value of the option)
                     dep_alpha = any(x.op == "call" and B.cname(x) == "BlsTimeCrypt::compute_v" for x in subterms(rr))
                     dep_msg = any(x.op == "call" and B.cname(x) in ("Digest::digest",) for x in subterms(rr))
@@ -95,7 +95,7 @@ def run(ctx):
             hs = [x for x in ev.sites.values() if x.callee[0] == "HashToScalar::hash_to_scalar"]
             outs = []
             for h in hs:
-                segs = B.nf(ev, h.args[0])
+                segs = B.nf(ev, inline(P, h.args[0], 2, only=K.local_inliner(P)))
                 st = B.peel(h.args[1])
                 salt = bytes.fromhex(st.a[2].a[1]).decode("latin-1") if st.op == "named" and st.a[2].op == "const" else None
                 outs.append((segs, salt, h))
